@@ -235,6 +235,66 @@ theorem eval2_map_rows (f : List R → List R) (g : R → R) (hf : ∀ row y, ev
   unfold eval2
   simp only [List.map_map, Function.comp_def, hf]
 
+/-! ### trimming a two-variable coefficient array (`Poly2DType.minimize_order`) -/
+
+theorem eval_zero_of_dropTrailingZeros_nil [DecidableEq R] (r : List R) (h : dropTrailingZeros r = []) (y : R) :
+    eval r y = 0 := by
+  rw [← eval_dropTrailingZeros r y, h]; rfl
+
+theorem eval_take [DecidableEq R] (r : List R) (n : Nat) (h : (dropTrailingZeros r).length ≤ n) (y : R) :
+    eval (r.take n) y = eval r y := by
+  induction r generalizing n with
+  | nil => simp
+  | cons c l ih =>
+    cases n with
+    | zero =>
+      have h0 : dropTrailingZeros (c :: l) = [] := List.eq_nil_of_length_eq_zero (Nat.le_zero.mp h)
+      simp [eval_zero_of_dropTrailingZeros_nil _ h0]
+    | succ n =>
+      have hl : (dropTrailingZeros l).length ≤ n := by
+        simp only [dropTrailingZeros] at h
+        split at h
+        · rename_i hz; simp [hz.1]
+        · simpa using h
+      simp only [List.take_succ_cons, eval_cons, ih n hl]
+
+theorem eval2_dropTrailingZeroRows [DecidableEq R] (p : List (List R)) (x y : R) :
+    eval2 (dropTrailingZeroRows p) x y = eval2 p x y := by
+  unfold eval2
+  induction p with
+  | nil => rfl
+  | cons r l ih =>
+    simp only [dropTrailingZeroRows]
+    split
+    · rename_i h
+      rw [h.1] at ih
+      simp only [List.map_nil, eval_nil] at ih
+      simp [eval_zero_of_dropTrailingZeros_nil r h.2, ← ih]
+    · simp only [List.map_cons, eval_cons, ih]
+
+theorem eval2_take_cols [DecidableEq R] (q : List (List R)) (n : Nat) (h : lastCol q ≤ n) (x y : R) :
+    eval2 (q.map (fun r => r.take n)) x y = eval2 q x y := by
+  unfold eval2
+  induction q with
+  | nil => rfl
+  | cons r l ih =>
+    have h1 : (dropTrailingZeros r).length ≤ n := Nat.le_trans (Nat.le_max_left _ _) h
+    have h2 : lastCol l ≤ n := Nat.le_trans (Nat.le_max_right _ _) h
+    simp only [List.map_cons, eval_cons, eval_take r n h1, ih h2]
+
+/-- **trimming preserves the polynomial** (two variables) -/
+theorem eval2_minimize2 [DecidableEq R] (p : List (List R)) (x y : R) : eval2 (minimize2 p) x y = eval2 p x y := by
+  unfold minimize2
+  simp only
+  split
+  · rename_i h
+    rw [← eval2_dropTrailingZeroRows p x y, h]
+    simp [eval2]
+  · rw [eval2_take_cols _ _ (Nat.le_refl _), eval2_dropTrailingZeroRows]
+
+theorem minimize2_nonempty [DecidableEq R] (p : List (List R)) : minimize2 p ≠ [] := by
+  unfold minimize2; simp only; split <;> simp_all
+
 /-! ### vector polynomials are three independent one-variable polynomials -/
 theorem xyz_shift [DecidableEq R] (t0 a : R) (px py pz : List R) (t : R) :
     (eval (shift t0 a px) t, eval (shift t0 a py) t, eval (shift t0 a pz) t) =
@@ -242,6 +302,8 @@ theorem xyz_shift [DecidableEq R] (t0 a : R) (px py pz : List R) (t : R) :
   simp [eval_shift]
 
 /-! ### non-vacuity (ℤ): a cubic, shifted and scaled, and its second derivative -/
+example : minimize2 ([[1, 0, 0], [2, 0, 0], [-3, 0, 0], [0, 0, 0]] : List (List Int)) = [[1], [2], [-3]] := by decide
+example : minimize2 ([[1, 0, 2, 0], [0, 5, 0, 0], [0, 0, 0, 0]] : List (List Int)) = [[1, 0, 2], [0, 5, 0]] := by decide
 example : eval (shift (2 : Int) 3 [1, -4, 0, 5]) 7 = eval [1, -4, 0, 5] (3 * 7 - 2) := by decide
 example : shift (2 : Int) 3 [1, -4, 0, 5] = [-31, 168, -270, 135] := by decide
 example : derN 2 ([1, -4, 0, 5] : List Int) = [0, 30] := by decide
